@@ -6,6 +6,7 @@ import (
 	"math/rand/v2"
 	"os"
 	"path/filepath"
+	"reflect"
 	"sort"
 	"strconv"
 	"strings"
@@ -27,7 +28,7 @@ func init() { core.Register(c20{}) }
 
 func (c20) ID() string { return "C20" }
 func (c20) Rule() string {
-	return "plans: <= 6 operations over 2 plugin names: install (version from a semver-ordered set incl. pre-release, build metadata, 1.10 vs 1.2, and invalid ones; overwrite flag; source = executable | directory; executable or non-executable candidate; extra files sorting before and after the candidate; sub-directory with files, one shadowing a top-level name; second candidate; valid / misnamed / invalid / non-JSON metadata), uninstall, get, list; 20% of runs inject one ENOSPC/EIO into a copy. The user process can be killed at a file-system step (crash before / after the step); a supervisor starts a new process that goes on with the next operation. A clean successful install after a faulted or killed one is judged against the statement's sentence about the result of a successful installation. Source directories may contain a sub-directory named like the source directory itself, holding a complete plugin of its own. non-trivial: an install was decided against an already installed plugin, or used a directory source with extras; distinct: hash of the (op, arguments, verdict) sequence"
+	return "plans: <= 6 operations over 2 plugin names: install (version from a semver-ordered set incl. pre-release, build metadata, 1.10 vs 1.2, and invalid ones; overwrite flag; source = executable | directory; executable or non-executable candidate; extra files sorting before and after the candidate; sub-directory with files, one shadowing a top-level name; second candidate; valid / misnamed / invalid / non-JSON metadata), uninstall, get, list; 20% of runs inject one ENOSPC/EIO into a copy. The user process can be killed at a file-system step (crash before / after the step); a supervisor starts a new process that goes on with the next operation. A clean successful install after a faulted or killed one is judged against the statement's sentence about the result of a successful installation. Source directories may contain a sub-directory named like the source directory itself, holding a complete plugin of its own. In fault-free plans the owner of an install source rebuilds its files in place afterwards. non-trivial: an install was decided against an already installed plugin, or used a directory source with extras; distinct: hash of the (op, arguments, verdict) sequence"
 }
 func (c20) Components() map[string]string {
 	return map[string]string{
@@ -190,6 +191,10 @@ func (c20) Gen(r *rand.Rand, tier string, idx int) *core.Plan {
 		// the user process is killed at a file-system step (the next process goes on with the next operation)
 		p.Faults = append(p.Faults, rt.Fault{Task: 1, Op: core.Pick(r, "write", "open", "mkdir", "chmod", "close", "unlink", "rmdir", "stat", "readdir"), Nth: r.IntN(10), Kind: core.Pick(r, "crash.before", "crash.after")})
 	}
+	if len(p.Faults) == 0 && idx%2 == 1 {
+		// after every install the owner of the source rebuilds its files in place: what is installed is a copy
+		p.World["ownerRewrites"] = 1
+	}
 	return p
 }
 
@@ -261,10 +266,34 @@ func (l c20) Exec(env *core.Env) *core.Result {
 			}
 			return md.Name + "@" + md.Version, nil
 		}
+		// the source of the previous install still belongs to whoever made it: rewriting its files in place (same
+		// inodes, as a build does) changes nothing that is installed
+		prevSrc := ""
+		ownerRebuilds := func() {
+			if p.W("ownerRewrites") != 1 || prevSrc == "" {
+				return
+			}
+			was := readTree(root)
+			filepath.WalkDir(prevSrc, func(f string, d os.DirEntry, err error) error {
+				if err == nil && d.Type().IsRegular() {
+					if fh, e := os.OpenFile(f, os.O_WRONLY|os.O_TRUNC, 0); e == nil {
+						fh.WriteString("rebuilt in place by the owner of the source\n")
+						fh.Close()
+					}
+				}
+				return nil
+			})
+			if now := readTree(root); !reflect.DeepEqual(was, now) {
+				res.Violate("C20/installed-plugin-changed-with-its-source", "", "the owner of %s rewrote its files in place after the install; the plugin directory changed from %v to %v", filepath.Base(prevSrc), was, now)
+			}
+			res.Probe("source_rewritten_in_place_after_the_install")
+			prevSrc = ""
+		}
 		for i := start; i < len(p.Ops); i++ {
 			op := p.Ops[i]
 			cur, inOp = i, false
 			rt.Yield("op")
+			ownerRebuilds()
 			name := op.Str(0)
 			if op.Kind == "install" && op.Int(12) == 1 && model[name] != nil {
 				// (before the operation begins: the installed plugin's interpreter goes away, see below)
@@ -283,6 +312,7 @@ func (l c20) Exec(env *core.Env) *core.Result {
 				}
 				d := filepath.Join(src, fmt.Sprintf("s%d", i))
 				os.MkdirAll(d, 0755)
+				prevSrc = d
 				mode := os.FileMode(0755)
 				if !candExec {
 					mode = 0644
@@ -565,6 +595,7 @@ func (l c20) Exec(env *core.Env) *core.Result {
 				}
 			}
 		}
+		ownerRebuilds()
 		cur, inOp = len(p.Ops), false
 	}
 	// the supervisor starts the user process and, when it was killed in the middle of an operation,
